@@ -178,6 +178,8 @@ class FindWithIndexOperator(Contract):
 
     def cases(self):
         cs = [{"op": o} for o in ("$eq", "$ne", "$lt", "$lte", "$gt", "$gte", "$in", "$nin", "$regex")]
+        # _find_result hands sequences over as tuples (_to_hashable); a direct caller may pass a list
+        cs += [{"op": o, "container": "tuple"} for o in ("$in", "$nin")]
         cs += [{"op": "$type", "targ": t} for t in TYPES]
         cs += [{"op": "$near", "shape": s} for s in (0, 1, 2, 3)]
         return cs
@@ -197,6 +199,7 @@ class FindWithIndexOperator(Contract):
             ex.assume(a)
         if op in ("$in", "$nin"):
             arg = SJList.fresh(ex, "arg")
+            arg.is_list = case.get("container") != "tuple"
             specarg = arg
         elif op == "$type":
             arg = case["targ"]
